@@ -41,7 +41,9 @@ def exhaustive(tier):
 WORDS = ["Aa", "bb", "Cc", "dd", "von", "de", "la", "Jr.", "III", "{Ee}", "{ff}", "{\\'E}x", "{\\'e}x", "1", "\\'E", "d'Aa", "{\\oe}x", "{von}", "Éa", "ça", "Strauß", "İz", "ﬁn", "ǅa", "ßa", "e", "y", "a", "ß", "O", "é", "{}\\Lukasz", "{}\\lUkasz", "\\Lx", "x{}\\Ly", "{}",
          "A.", "b-C", "{A B}", "{a, b}", "\\\\", "x\\", "\\",
          "{\\v{C}}apek", "{\\v{c}}X", "{{\\'E}}x", "{a\\B}c", "{\\OE}x", "{\\ss}X", "{Universit{\\\"a}t}", "{x{\\'E}}y", "{\\'{e}}X",
-         "王", "毛", "泽", "东", "محمد", "בן", "{\\relax}b", "ǅ"]
+         "王", "毛", "泽", "东", "محمد", "בן", "{\\relax}b", "ǅ",
+         # every kind of white space INSIDE a brace group (one word, verbatim; seed C13-g)
+         "{A\nB}", "{a\tb}", "{A\r\nB}", "{A~b}", "{A  B}", "{ A}", "{a }", "{\n}", "{a\u00a0b}", "{A\x0cB}", "{A\n   b}", "x{ \t}y", "{A\rB}", "{a\u2028b}"]
 
 
 # words whose case needs BibTeX's full rule: special characters (with letter / non-letter control sequences, the 13
